@@ -78,6 +78,13 @@ func c02exec(c *h.Ctx, cs *h.Case) {
 				cp := *f.cl.SI(k)
 				cp.ID = f.cl.SI(v).ID
 				si = &cp
+			} else if i := strings.Index(peer, "a"); i > 0 {
+				// the key of server k, with the address, description and URL of server v
+				k, _ := strconv.Atoi(peer[:i])
+				v, _ := strconv.Atoi(peer[i+1:])
+				cp := *f.cl.SI(k)
+				cp.Address, cp.Description, cp.URL = f.cl.SI(v).Address, f.cl.SI(v).Description, f.cl.SI(v).URL
+				si = &cp
 			} else {
 				p, _ := strconv.Atoi(peer)
 				si = f.cl.SI(p)
@@ -138,7 +145,7 @@ func c02exec(c *h.Ctx, cs *h.Case) {
 						cs.Fail("wrong-node", fmt.Sprintf("message %d delivered with another node than the claimed sender", it.V))
 					}
 					if s.peer != "-" {
-						p, _ := strconv.Atoi(strings.SplitN(s.peer, "f", 2)[0])
+						p, _ := strconv.Atoi(c02peerKey(s.peer))
 						if !it.Node.ServerIdentity.Equal(f.cl.SI(p)) {
 							cs.Fail("peer-mismatch-delivered", fmt.Sprintf("message %d: node's server differs from the connection peer %s", it.V, s.peer))
 						}
@@ -356,8 +363,18 @@ func c02bad(f *c04fixture, nodes []*onet.TreeNode, sender, peer string) bool {
 	if peer == "-" {
 		return false
 	}
-	p, _ := strconv.Atoi(strings.SplitN(peer, "f", 2)[0]) // only the key is authenticated
+	p, _ := strconv.Atoi(c02peerKey(peer)) // only the key is authenticated
 	return !nodes[i-10].ServerIdentity.Equal(f.cl.SI(p))
+}
+
+// c02peerKey: the server whose key a peer token carries (`<k>`, `<k>f<v>`, `<k>a<v>`)
+func c02peerKey(peer string) string {
+	for i, ch := range peer {
+		if ch == 'f' || ch == 'a' {
+			return peer[:i]
+		}
+	}
+	return peer
 }
 
 func classify(sender, peer string) string {
@@ -374,6 +391,9 @@ func classify(sender, peer string) string {
 	}
 	if strings.Contains(peer, "f") {
 		return "forged-id-field"
+	}
+	if strings.Contains(peer, "a") {
+		return "forged-address"
 	}
 	if peer == "10" {
 		return "member-id-from-outsider"
@@ -420,7 +440,7 @@ func c02gen(c *h.Ctx, yield func(*h.Case)) {
 			s = append(s, strconv.Itoa(i))
 		}
 		// the key of an outsider / of member 0 announcing the ID field of another member
-		return append(s, "10", "-", fmt.Sprintf("10f%d", n-1), fmt.Sprintf("0f%d", n-1))
+		return append(s, "10", "-", fmt.Sprintf("10f%d", n-1), fmt.Sprintf("0f%d", n-1), fmt.Sprintf("10a%d", n-1), fmt.Sprintf("0a%d", n-1))
 	}
 	// exhaustive table: every (type, claimed sender, peer) alone on a fresh instance,
 	// for aggregated types followed by honest messages that would complete the batch
@@ -444,6 +464,47 @@ func c02gen(c *h.Ctx, yield func(*h.Case)) {
 						c.Count("class=table")
 						c.Count("sender=" + classify(s, p))
 						yield(cs)
+					}
+				}
+			}
+		}
+	}
+	// the bad message at every position among the honest ones (first, in between, last) — aggregated types
+	for _, root := range []bool{false, true} {
+		for _, k := range []int{2, 3} {
+			for _, ty := range []int{1, 2} {
+				for _, s := range senders(root, k) {
+					for _, p := range peers(root, k) {
+						for pos := 1; pos <= k; pos++ {
+							if r.Intn(c.Pick(4, 1)) != 0 {
+								continue
+							}
+							cs := &h.Case{Class: "table position"}
+							cs.Ops = append(cs.Ops, cfg(root, k))
+							first := 2
+							if root {
+								first = 1
+							}
+							for i := 0; i <= k; i++ {
+								val++
+								if i == pos {
+									cs.Ops = append(cs.Ops, fmt.Sprintf("c02 msg %d %s %s %d", ty, s, p, val))
+									continue
+								}
+								j := i
+								if i > pos {
+									j = i - 1
+								}
+								cs.Ops = append(cs.Ops, fmt.Sprintf("c02 msg %d %d %d %d", ty, 10+first+j, first+j, val))
+							}
+							// one more round of honest messages: the refused batch must not leave anything behind
+							for i := 0; i < k; i++ {
+								val++
+								cs.Ops = append(cs.Ops, fmt.Sprintf("c02 msg %d %d %d %d", ty, 10+first+i, first+i, val))
+							}
+							c.Count("class=table position")
+							yield(cs)
+						}
 					}
 				}
 			}
